@@ -3,12 +3,7 @@
 claims and the rules evolve together)."""
 import json, os
 
-NA = [
- ("C09", "linearizability is a predicate over concurrent histories under all schedules, retries and crashes; no structural clause of the Go source is both statically checkable and necessary for it (a divergence of raftkvs.go / the client from the spec is reported by C02, which is not a necessary condition of linearizability)"),
- ("C14", "replica agreement + linearizability of the primary-backup store are invariants over all reachable states of a distributed protocol; their truth is not in the shape of any Go function, and spec fidelity (C02) is not a necessary condition"),
- ("C15", "mutual exclusion and FIFO service order under a bag network are state-space invariants of the lock-service protocol; not decidable by a sound static argument over the generated Go"),
- ("C16", "the remaining systems' safety invariants (exactly-once hand-off, proxy accuracy, counter totals, CRDT convergence) quantify over all interleavings and crash sequences; only spec fidelity is statically visible and that is C02's verdict, not a necessary condition of these invariants"),
-]
+NA = []
 
 # property -> (technique, level text, level note, design ref)
 CLAIMED = {
@@ -116,7 +111,31 @@ ADD4 = {
  "C18": " Round 4: VClock.Merge returns the accumulator, or an operand only where the other is empty.",
  "C19": " Round 4: DEADLINE-SCOPED (no absolute deadline is left on a served connection), the rpc.ErrShutdown test is made for every RPC error, ONESHOT-FRESH.",
 }
-for d in (ADD, ADD3, ADD4):
+
+# properties claimed in round 5 through spec fidelity + protocol tables over the specification
+CLAIMED.update({
+ "C09": ("translation validation restricted to the Raft store (parse-tree comparison) + decision table over the specification's parse trees (truth-table comparison of path conditions) + bootstrap value-flow query",
+         "Linearizability itself (a predicate over all concurrent histories, schedules and crashes) is NOT decided. Decided are the two static halves of the argument that it holds for the implementation whenever it holds for the model-checked specification: KV-FIDELITY - every critical section of raftkvs.go (servers and client), every table entry and operator definition is the image of raftkvs.tla; RAFT-DECISION - a protocol table over raftkvs.tla itself (62 rows: quorum = strict majority, vote granting, term adoption, AppendEntries consistency check / truncate / append, match-index bookkeeping, commit of current-term entries agreed by a quorum, answers exactly for applied entries with the request's own index, the client's numbering / stale-response filter / retry conditions), compared as boolean functions of the guards' atoms, so an edit made consistently in the specification and the Go (fidelity intact) is still reported; RAFT-WIRING + LS-2PL + LS-CAP1 - the per-server state including the applied store is one copy shared by the five archetypes under 2PL.",
+         "trusts go/types, the checker's MPCal front end and the protocol table in checker/rules/spectables.go (a deliberate protocol change has to change the table); the safety of the tabled protocol is the specification's (model-checking) business",
+         "DESIGN.md section 4, C09"),
+ "C14": ("translation validation restricted to pbkvs + decision table over the specification's parse trees + a channel-capacity rule on the client front end",
+         "ConsistencyOK / linearizability over all schedules and crash sequences are NOT decided. Decided: PB-FIDELITY - pbkvs.go is section by section the image of pbkvs.tla; PB-DECISION - protocol table over pbkvs.tla (36 rows: answer only after every live backup acknowledged, replicate to every other replica, next version per Put, a new primary synchronises before serving and adopts strictly newer versions, backups apply only newer synchronisation values, clients filter by request id and retry only on detected failure), compared by truth table; RESP-RENDEZVOUS - the client front end's response channel has capacity 0, so the late answer of a timed-out request is never handed to the next call.",
+         "trusts go/types, the checker's MPCal front end and the protocol table in checker/rules/spectables.go",
+         "DESIGN.md section 4, C14"),
+ "C15": ("translation validation restricted to locksvc + decision table over the specification's parse trees",
+         "Mutual exclusion / FIFO service over all interleavings are NOT decided. Decided: LOCK-FIDELITY - locksvc.go is section by section the image of locksvc.tla; LOCK-DECISION - protocol table over locksvc.tla (14 rows: grant at once exactly on an empty queue, append every requester, unlock pops the head and grants the new head, nothing else is sent, the client enters only on a grant), compared by truth table.",
+         "trusts go/types, the checker's MPCal front end and the protocol table in checker/rules/spectables.go",
+         "DESIGN.md section 4, C15"),
+ "C16": ("translation validation restricted to the eight systems + decision tables over their specifications + the 2PC and CRDT value-type rules of C11/C12",
+         "The invariants over all schedules are NOT decided. Decided: SYS-FIDELITY - each of the eight generated systems is section by section the image of its specification (every assertion included); SYS-DECISION - protocol tables over the specifications (proxy: accepts only the awaited reply, gives up only on detected failure, reports failure after the last backend; queue / load balancer pairing; nested CRDT: first-touch snapshot, merge on commit, committed state only is broadcast; counters), compared by truth table; the 2PC rules (TPC-*) because the shared counter rests on the 2PC resource, and the CRDT value-type rules (CRDT-DECISION, MERGE-*, OPERAND-TRAVERSED, WRITE-*) because the CRDT systems' 'equal knowledge reads equal values, counters never decrease' rests on them.",
+         "trusts go/types, go/cfg, the checker's MPCal front end and the tables in checker/rules/spectables.go",
+         "DESIGN.md section 4, C16"),
+})
+ADD5 = {
+ "C08": " Round 5: RAFT-DECISION - a protocol table over raftkvs.tla itself (quorum, vote granting, term adoption, log-consistency check, truncate / append, commit rule, apply loop), compared by truth table, so that an edit made consistently in the specification and the Go is still reported.",
+ "C13": " Round 5: value and snapshot absorb the same received state (CRDT-SNAPSHOT snapshot-merges-what-the-value-merges).",
+}
+for d in (ADD, ADD3, ADD4, ADD5):
     for k, v in d.items():
         t = CLAIMED[k]
         CLAIMED[k] = (t[0], t[1] + v, t[2], t[3])
